@@ -34,10 +34,30 @@ def gen(rng):
     return s.normalize()
 
 
+def huge_cases(eng, res, fields, what, rng):
+    """The biggest blob is bigger than any 32-bit size (served by the fake git as a size-only object): it is still the
+    maximum (reported at the counter's capacity), wherever it sits in the enumeration and whatever the second biggest is."""
+    n = 0
+    for size in (2**32 - 2, 2**32 - 1, 2**32, 2**32 + 5, 2**32 + 12, 5 * 2**30, 2**33 + 1, 2**40, 10**12 + 12, 2**63 + 7):
+        for pos in ("first", "last"):
+            s = S.Scenario()
+            small = s.add({"kind": "blob", "data": b"twelve bytes"})
+            mid = s.add({"kind": "blob", "data": b"m" * (size % 2**32 if 12 < size % 2**32 < 100000 else 4000)})
+            huge = s.add({"kind": "blob", "size": size, "data": None})
+            ents = [(0o100644, b"a-huge" if pos == "first" else b"z-huge", huge), (0o100644, b"mid", mid), (0o100644, b"small", small)]
+            t = s.add({"kind": "tree", "entries": sorted(ents, key=lambda e: e[1])})
+            c = s.add({"kind": "commit", "tree": t, "parents": []})
+            s.refs.append((b"refs/heads/main", c))
+            s.compute()
+            SP.one_case(eng, res, s, [], [], [], s.enum_gitlike([c]), fields, "%s: a blob of %d bytes, listed %s in its tree" % (what, size, pos))
+            n += 1
+    res.coverage_extra["huge_blob_cases"] = n
+
+
 def run(ctx):
     quick = ctx["tier"] == "quick"
     return SP.run_general(
-        ctx, SC.FIELD_GROUPS["maxima"], "maxima", n_fake=110 if quick else 2000, n_real=35 if quick else 500, gen=gen,
+        ctx, SC.FIELD_GROUPS["maxima"], "maxima", n_fake=110 if quick else 2000, n_real=35 if quick else 500, gen=gen, extra_cases=huge_cases,
         rule=("random graphs extended with extremal objects (largest blob, widest tree, biggest commit, most parents) created "
               "last but enumerated first/last/middle (random legal orders under fakegit, date-driven order under real git), "
               "with ties in every metric; the four max_* fields are compared with the model and with the maximum over the "
